@@ -195,8 +195,7 @@ Definition rfc_op (c : cfg) (feq : Z -> Z -> bool) (d : option jval) (o : sop) :
     match s_from o, d with
     | Some f, Some dv =>
       if s_is_root c path then
-        (if c_lenient c then Some d                                  (* library: ignored *)
-         else match jget c dv f with Some x => Some (Some x) | None => None end)
+        match jget c dv f with Some x => Some (Some x) | None => None end     (* the value at `from` becomes the document (22df63c) *)
       else if negb (c_lenient c) && proper_prefix f path then None
       else match jget c dv f with
            | Some x => match s_remove c dv f with
@@ -205,19 +204,20 @@ Definition rfc_op (c : cfg) (feq : Z -> Z -> bool) (d : option jval) (o : sop) :
                        end
            | None => None
            end
-    | _, _ => if s_is_root c path && c_lenient c then Some d else None
+    | _, _ => if s_is_root c path && c_lenient c      (* no document left: only the document onto itself (from = "") is no error *)
+              then match s_from o with Some [] => Some d | _ => None end else None
     end
   | SCopy =>
     match s_from o, d with
     | Some f, Some dv =>
       if s_is_root c path then
-        (if c_lenient c then Some d
-         else match jget c dv f with Some x => Some (Some x) | None => None end)
+        match jget c dv f with Some x => Some (Some x) | None => None end
       else match jget c dv f with
            | Some x => option_map Some (s_add c dv path x)
            | None => None
            end
-    | _, _ => if s_is_root c path && c_lenient c then Some d else None
+    | _, _ => if s_is_root c path && c_lenient c      (* no document left: only the document onto itself (from = "") is no error *)
+              then match s_from o with Some [] => Some d | _ => None end else None
     end
   | _ => None          (* the extensions are specified separately below *)
   end.
@@ -465,7 +465,12 @@ Definition lib_op (c : cfg) (feq : Z -> Z -> bool) (fadd : Z -> Z -> Z) (fofi ft
     | _ =>
       if s_is_root c path then Some d
       else match s_from o, d with
-           | Some f, Some dv => option_map Some (lib_swap c dv f path)
+           | Some f, Some dv =>
+             if negb (Nat.eqb (length f) (length path)) && (seg_prefix f path || seg_prefix path f)
+             then None                                 (* a location cannot change places with a part of itself (da6f72b) *)
+             else option_map Some (lib_swap c dv f path)
+           | Some f, None =>
+             None
            | _, _ => None
            end
     end
